@@ -75,6 +75,23 @@ def getRawVia {Oid Pack Obj : Type} (midx : Oid → Option Pack) (packGet : Pack
         | none => base o)
     | none => base o
 
+/-- `get_raw` with the MIDX entry as it is stored — (pack, offset): `pack_name, _offset = result` — the offset is
+NOT used, the object is looked up again through the named pack's own index (`pack.get_raw(sha)`). -/
+def getRawViaEntry {Oid Pack Obj : Type} (midx : Oid → Option (Pack × Nat)) (packGet : Pack → Oid → Option Obj)
+    (base : Oid → Option Obj) : Oid → Option Obj :=
+  getRawVia (fun o => (midx o).map (·.1)) packGet base
+
+/-- the variant that TRUSTS the stored offset (reads the pack file at that offset; `readAt p off = none` ⇔ the pack is
+gone; a failure to inflate is not a KeyError, so there is no fall-back) — not what the code does; kept to show
+what would go wrong -/
+def getRawAtOffset {Oid Pack Obj : Type} (midx : Oid → Option (Pack × Nat)) (readAt : Pack → Nat → Option Obj)
+    (base : Oid → Option Obj) : Oid → Option Obj :=
+  fun o => match midx o with
+    | some (p, off) => (match readAt p off with
+        | some x => some x
+        | none => base o)
+    | none => base o
+
 /-- `contains_packed`: a MIDX entry is believed only if the pack it names still exists and has the object
 (`sha in self._get_pack_by_name(name)`; `KeyError` / `PackFileDisappeared` ⇒ per-pack lookup), as in `get_raw`. -/
 def containsVia {Oid Pack : Type} (midx : Oid → Option Pack) (packHas : Pack → Oid → Bool)
